@@ -585,4 +585,19 @@ theorem sqrt_spec_x1 (a : Nat) (ha : a < 2 ^ x1.B) :
     ((sqrt x1 a).2 = T32 ∨ (sqrt x1 a).2 = 0) :=
   sqrt_spec x1 (Or.inl rfl) squareOK_x1 a ha
 
+
+/-! ### non-vacuity: concrete operands meeting the hypotheses, results recomputed by the kernel -/
+
+example : IsLvl x1 ∧ IsLvl x3 ∧ IsLvl x5 := ⟨Or.inl rfl, Or.inr (Or.inl rfl), Or.inr (Or.inr rfl)⟩
+/-- operands `≥ q` (only partially reduced) are in the domain of the additive theorems -/
+example : x1.q + 5 < 2 ^ x1.B ∧ 2 ^ x1.B - 1 < 2 ^ x1.B ∧
+    add x1 (x1.q + 5) (2 ^ x1.B - 1) % x1.q = (x1.q + 5 + (2 ^ x1.B - 1)) % x1.q := by decide
+example : sub x3 3 (x3.q + 7) < 2 ^ x3.B ∧ (sub x3 3 (x3.q + 7) + (x3.q + 7)) % x3.q = 3 % x3.q := by decide
+example : iszero x5 x5.q = T32 ∧ iszero x5 0 = T32 ∧ iszero x5 1 = 0 := by decide
+example : (decode x1 5).2 = T32 ∧ (decode x1 x1.q).2 = 0 ∧ (decode x1 x1.q).1 = 0 := by decide
+example : montgomery_reduce x1 x1.one = 1 ∧ montgomery_reduce x3 x3.one = 1 ∧ montgomery_reduce x5 x5.one = 1 := by
+  decide
+example : mul x1 x1.one x1.one % x1.q = x1.one % x1.q := by decide
+example : (sqrt x1 (set_small x1 4)).2 = T32 ∧ encode x1 (sqrt x1 (set_small x1 4)).1 = 2 := by decide +kernel
+
 end SqiProofs.GfX86
